@@ -33,9 +33,13 @@ pub open spec fn consts_match<B: BlockProvider, N: NotificationService, P: Payme
                            || store_of(*old(w)) == (StoreAbs::Succeeded { preimage: resp->payment_key@ }))
 //@ requires#inv [C01]
       inv(*old(w))
+//@ requires#requested_failure_is_forwarded_unchanged [C12,C07]
+//    C12/C07: a policy rejection requested by handle_htlc is answered to the whole set with exactly
+//    the failure that was requested (it carries the configured policy)
+      old(w).fail_received is Some ==> Some(resp_abs(resp)) == old(w).fail_received
 //@ requires#never_continue [C06]
       !(resp is Continue)
-//@ ensures#released [C06]
+//@ ensures#released [C06,C09,C07]
       final(w).released && final(w).resolved == Some(resp_abs(resp))
 //@ ensures#key_is_the_preimage_of_the_hash [C01]
       resp is Resolve ==> resp->payment_key@ == preimage_of(old(w).hash)
@@ -54,7 +58,7 @@ pub open spec fn consts_match<B: BlockProvider, N: NotificationService, P: Payme
 //@ requires#start_from_any_durable_image [C02,C05,C08,C09]
 //    a (re)start: ANY world that satisfies only the durable invariant
       inv(*old(w)) && !old(w).released && old(w).resolved is None && !old(w).pay_running
-      && !old(w).lock_held && !old(w).rpc_under_lock && !old(w).attempted
+      && !old(w).lock_held && !old(w).rpc_under_lock && !old(w).attempted && old(w).fail_received is None
 //@ requires#consts
       consts_match(*old(w), trampoline, *params)
 //@ ensures#answered_exactly_once [C06,C09,C07]
